@@ -67,20 +67,27 @@ class Calc(object):
                       | expression '|' expression
                       | expression LSHIFT expression
                       | expression RSHIFT expression"""
-        if p[2] == '+':
-            p[0] = p[1] + p[3]
-        elif p[2] == '-':
-            p[0] = p[1] - p[3]
-        elif p[2] == '*':
-            p[0] = p[1] * p[3]
-        elif p[2] == '/':
-            p[0] = p[1] // p[3]
-        elif p[2] == '<<':
-            p[0] = p[1] << p[3]
-        elif p[2] == '>>':
-            p[0] = p[1] >> p[3]
-        elif p[2] == '|':
-            p[0] = p[1] | p[3]
+        try:
+            if p[2] == '+':
+                p[0] = p[1] + p[3]
+            elif p[2] == '-':
+                p[0] = p[1] - p[3]
+            elif p[2] == '*':
+                p[0] = p[1] * p[3]
+            elif p[2] == '/':
+                p[0] = p[1] // p[3]
+            elif p[2] == '<<':
+                if p[3] > 64:
+                    raise OverflowError
+                p[0] = p[1] << p[3]
+            elif p[2] == '>>':
+                p[0] = p[1] >> p[3]
+            elif p[2] == '|':
+                p[0] = p[1] | p[3]
+        except ZeroDivisionError:
+            raise ParseError("division by zero")
+        except (ValueError, OverflowError, MemoryError):
+            raise ParseError("invalid shift count")
 
     @staticmethod
     def p_expression_uminus(p):
